@@ -312,6 +312,38 @@ def t_view_upper(name, path, cls, fn, array):
     return 'Definition %s %s : Z := %s.' % (name, tr.signature(), e)
 
 
+def t_extend_amount(name, path, cls, fn):
+    """the amount E of the single `self.extend(E)` call of a function, over its arguments and `len(self)`"""
+    f = find_func(path, cls, fn)
+    calls = [n for n in ast.walk(f) if isinstance(n, ast.Call) and isinstance(n.func, ast.Attribute) and n.func.attr == 'extend'
+             and isinstance(n.func.value, ast.Name) and n.func.value.id == 'self']
+    if len(calls) != 1 or len(calls[0].args) != 1:
+        raise Untranslatable('%s.%s: expected exactly one self.extend(E)' % (cls, fn))
+    tr = Tr(cls, {})
+    env = {a.arg: 'p_' + a.arg for a in f.args.args if a.arg != 'self'}
+    for n in f.body:                       # locals bound to len(self)
+        if (isinstance(n, ast.Assign) and len(n.targets) == 1 and isinstance(n.targets[0], ast.Name) and isinstance(n.value, ast.Call)
+                and isinstance(n.value.func, ast.Name) and n.value.func.id == 'len'):
+            env[n.targets[0].id] = tr.expr(n.value, {})
+    e = tr.expr(calls[0].args[0], env)
+    used = [a for a in env if ('p_' + a) in e]
+    return 'Definition %s %s %s : Z := %s.' % (name, ' '.join('(p_%s : Z)' % a for a in sorted(used)), tr.signature(), e), f, tr, env
+
+
+def t_set_len(name):
+    """ChainData.set_len: `if <len> < n: self.extend(n - <len>) else: raise ValueError` -> the guard and the amount"""
+    text, f, tr, env = t_extend_amount(name + '_amount', 'epsie/chain/chaindata.py', 'ChainData', 'set_len')
+    ifs = [n for n in f.body if isinstance(n, ast.If)]
+    if not (len(ifs) == 1 and len(ifs[0].body) == 1 and isinstance(ifs[0].body[0], ast.Expr) and isinstance(ifs[0].body[0].value, ast.Call)
+            and ifs[0].body[0].value.func.attr == 'extend' and len(ifs[0].orelse) == 1 and isinstance(ifs[0].orelse[0], ast.Raise)):
+        raise Untranslatable('ChainData.set_len is not `if <test>: self.extend(..) else: raise`')
+    t2 = Tr('ChainData', {})
+    t2.attrs |= tr.attrs
+    g = t2.test(ifs[0].test, env)
+    used = [a for a in env if ('p_' + a) in g]
+    return text + '\n\nDefinition %s_grows %s %s : bool := %s.' % (name, ' '.join('(p_%s : Z)' % a for a in sorted(used)), t2.signature(), g)
+
+
 def targets():
     ad = adaptive_props()
     out = []
@@ -346,6 +378,8 @@ def targets():
     add('src_swaps_view_rows', lambda: t_view_upper('src_swaps_view_rows', PTC, 'ParallelTemperedChain', 'temperature_swaps', '_temperature_swaps'))
     add('src_acceptance_view_rows', lambda: t_view_upper('src_acceptance_view_rows', PTC, 'ParallelTemperedChain', 'temperature_acceptance',
                                                          '_temperature_acceptance'))
+    add('src_setitem_extend', lambda: t_extend_amount('src_setitem_extend', 'epsie/chain/chaindata.py', 'ChainData', '__setitem__')[0])
+    add('src_set_len', lambda: t_set_len('src_set_len'))
     add('src_len', lambda: t_fun('src_len', 'epsie/chain/base.py', 'BaseChain', '__len__', {}))
     add('src_run_scratchlen', lambda: t_augassign('src_run_scratchlen', 'epsie/samplers/base.py', 'BaseSampler', 'run', 'c', 'scratchlen'))
     return out
